@@ -106,6 +106,61 @@ Proof.
   rewrite (hexN4 v Hv), Hr. reflexivity.
 Qed.
 
+Lemma hexN8 : forall v, v < 4294967296 ->
+  hexN [hexdigit (v / 65536 / 4096); hexdigit ((v / 65536 / 256) mod 16); hexdigit ((v / 65536 / 16) mod 16); hexdigit (v / 65536 mod 16);
+        hexdigit (v mod 65536 / 4096); hexdigit ((v mod 65536 / 256) mod 16); hexdigit ((v mod 65536 / 16) mod 16); hexdigit (v mod 65536 mod 16)] = Some v.
+Proof.
+  intros v H. unfold hexN. cbn [fold_left].
+  assert (Hhi : v / 65536 < 65536) by (apply N.div_lt_upper_bound; lia).
+  assert (Hlo : v mod 65536 < 65536) by (apply N.mod_lt; lia).
+  set (hi := v / 65536) in *. set (lo := v mod 65536) in *.
+  assert (A1 : hi / 4096 < 16) by (apply N.div_lt_upper_bound; lia).
+  assert (A2 : (hi / 256) mod 16 < 16) by (apply N.mod_lt; lia).
+  assert (A3 : (hi / 16) mod 16 < 16) by (apply N.mod_lt; lia).
+  assert (A4 : hi mod 16 < 16) by (apply N.mod_lt; lia).
+  assert (B1 : lo / 4096 < 16) by (apply N.div_lt_upper_bound; lia).
+  assert (B2 : (lo / 256) mod 16 < 16) by (apply N.mod_lt; lia).
+  assert (B3 : (lo / 16) mod 16 < 16) by (apply N.mod_lt; lia).
+  assert (B4 : lo mod 16 < 16) by (apply N.mod_lt; lia).
+  rewrite (hex_val_hexdigit _ A1), (hex_val_hexdigit _ A2), (hex_val_hexdigit _ A3), (hex_val_hexdigit _ A4),
+          (hex_val_hexdigit _ B1), (hex_val_hexdigit _ B2), (hex_val_hexdigit _ B3), (hex_val_hexdigit _ B4).
+  f_equal. pose proof (hex4_recompose hi Hhi) as Rh. pose proof (hex4_recompose lo Hlo) as Rl.
+  assert (E : v = hi * 65536 + lo) by (subst hi lo; pose proof (N.div_mod v 65536); lia).
+  generalize dependent (hi / 4096). generalize dependent ((hi / 256) mod 16). generalize dependent ((hi / 16) mod 16). generalize dependent (hi mod 16).
+  generalize dependent (lo / 4096). generalize dependent ((lo / 256) mod 16). generalize dependent ((lo / 16) mod 16). generalize dependent (lo mod 16).
+  intros. lia.
+Qed.
+
+Lemma valid_rune_lt : forall v, valid_rune v = true -> v < 4294967296.
+Proof.
+  intros v H. unfold valid_rune in H. apply orb_prop in H. destruct H as [H|H].
+  - apply N.ltb_lt in H. lia.
+  - apply andb_prop in H. destruct H as [_ H]. apply N.leb_le in H. lia.
+Qed.
+
+Lemma unq_U_unfold : forall a u r1, byte a = 92 -> byte u = 85 ->
+  unq 0 (String a (String u r1)) =
+  match r1 with
+  | String h1 (String h2 (String h3 (String h4 (String h5 (String h6 (String h7 (String h8 r2))))))) =>
+    match hexN [h1; h2; h3; h4; h5; h6; h7; h8] with
+    | Some v => if valid_rune v then oapp (utf8_encode v) (unq 0 r2) else None
+    | None => None
+    end
+  | _ => None
+  end.
+Proof.
+  intros a u r1 Ha Hu. cbn [unq]. rewrite Ha. change (92 =? 34) with false. change (92 =? 10) with false. change (92 =? 92) with true. cbv iota.
+  rewrite Hu. change (simple_escape 85) with (@None N). cbv iota. change (85 =? 120) with false. change (85 =? 117) with false. change (85 =? 85) with true. cbv iota.
+  reflexivity.
+Qed.
+
+Lemma unq_u8 : forall a u v r, byte a = 92 -> byte u = 85 -> valid_rune v = true ->
+  unq 0 (String a (String u (hex4_text (v / 65536) (hex4_text (v mod 65536) r)))) = oapp (utf8_encode v) (unq 0 r).
+Proof.
+  intros a u v r Ha Hu Hr. rewrite (unq_U_unfold a u _ Ha Hu). unfold hex4_text. cbv iota.
+  rewrite (hexN8 v (valid_rune_lt v Hr)), Hr. reflexivity.
+Qed.
+
 Lemma unq_skip : forall t rest, unq (String.length t) (t ++ rest) = oapp t (unq 0 rest).
 Proof.
   induction t as [|a t IH]; intro rest.
@@ -150,7 +205,7 @@ Proof. intros b v. unfold simple_escape. brk; intro H; inversion H; lia. Qed.
 
 Lemma qel_unq : forall e rest, qel_ok e = true -> unq 0 (qel_text e ++ rest) = oapp (qel_value e) (unq 0 rest).
 Proof.
-  intros e rest H. destruct e as [a|s|c|b|b|v]; cbn [qel_ok qel_text qel_value] in *.
+  intros e rest H. destruct e as [a|s|c|b|b|v|v]; cbn [qel_ok qel_text qel_value] in *.
   - apply andb_prop in H. destruct H as [H H4]. apply andb_prop in H. destruct H as [H H3]. apply andb_prop in H. destruct H as [H1 H2].
     cbn [append]. rewrite unq_plain; try assumption; try (apply negb_true_iff; assumption).
     destruct (unq 0 rest); reflexivity.
@@ -166,6 +221,8 @@ Proof.
   - cbn [append]. rewrite unq_oct; [|reflexivity|apply N.ltb_lt; exact H]. destruct (unq 0 rest); reflexivity.
   - apply andb_prop in H. destruct H as [Hr Hv]. apply N.ltb_lt in Hv.
     cbn [append]. rewrite unq_u4; [|reflexivity|reflexivity|exact Hv|exact Hr]. reflexivity.
+  - unfold hex4_text. cbn [append]. fold (hex4_text (v mod 65536) rest). fold (hex4_text (v / 65536) (hex4_text (v mod 65536) rest)).
+    rewrite unq_u8; [|reflexivity|reflexivity|exact H]. reflexivity.
 Qed.
 
 Lemma oapp_app : forall p q o, oapp p (oapp q o) = oapp (p ++ q)%string o.
@@ -279,9 +336,31 @@ Proof.
   rewrite scan_SD0. reflexivity.
 Qed.
 
+Lemma scan_u8 : forall a u h1 h2 h3 h4 h5 h6 h7 h8 r, byte a = 92 -> byte u = 85 ->
+  digit_val (byte h1) <? 16 = true -> digit_val (byte h2) <? 16 = true -> digit_val (byte h3) <? 16 = true -> digit_val (byte h4) <? 16 = true ->
+  digit_val (byte h5) <? 16 = true -> digit_val (byte h6) <? 16 = true -> digit_val (byte h7) <? 16 = true -> digit_val (byte h8) <? 16 = true ->
+  scan_str SS (String a (String u (String h1 (String h2 (String h3 (String h4 (String h5 (String h6 (String h7 (String h8 r))))))))))
+  = tapp (String a (String u (String h1 (String h2 (String h3 (String h4 (String h5 (String h6 (String h7 (String h8 EmptyString)))))))))) (scan_str SS r).
+Proof.
+  intros a u h1 h2 h3 h4 h5 h6 h7 h8 r Ha Hu D1 D2 D3 D4 D5 D6 D7 D8.
+  rewrite (scan_unfold SS a). cbv zeta iota. rewrite Ha. change (92 =? 34) with false. change (92 =? 10) with false. change (92 =? 92) with true.
+  cbn [orb]. cbv iota.
+  rewrite (scan_unfold SE u). cbv zeta iota. rewrite Hu. change (simple_escape 85) with (@None N). cbv iota.
+  change (inr 48 55 85) with false. change (85 =? 120) with false. change (85 =? 117) with false. change (85 =? 85) with true. cbv iota.
+  rewrite (scan_unfold (SD 16 8) h1). cbv zeta iota. rewrite D1.
+  rewrite (scan_unfold (SD 16 7) h2). cbv zeta iota. rewrite D2.
+  rewrite (scan_unfold (SD 16 6) h3). cbv zeta iota. rewrite D3.
+  rewrite (scan_unfold (SD 16 5) h4). cbv zeta iota. rewrite D4.
+  rewrite (scan_unfold (SD 16 4) h5). cbv zeta iota. rewrite D5.
+  rewrite (scan_unfold (SD 16 3) h6). cbv zeta iota. rewrite D6.
+  rewrite (scan_unfold (SD 16 2) h7). cbv zeta iota. rewrite D7.
+  rewrite (scan_unfold (SD 16 1) h8). cbv zeta iota. rewrite D8.
+  rewrite scan_SD0. reflexivity.
+Qed.
+
 Lemma qel_scan : forall e rest, qel_ok e = true -> scan_str SS (qel_text e ++ rest) = tapp (qel_text e) (scan_str SS rest).
 Proof.
-  intros e rest H. destruct e as [a|s|c|b|b|v]; cbn [qel_ok qel_text] in *.
+  intros e rest H. destruct e as [a|s|c|b|b|v|v]; cbn [qel_ok qel_text] in *.
   - apply andb_prop in H. destruct H as [H H4]. apply andb_prop in H. destruct H as [H H3]. apply andb_prop in H. destruct H as [H1 H2].
     cbn [append]. rewrite scan_plain; try (apply negb_true_iff; assumption). reflexivity.
   - destruct s as [|a t]; [discriminate H|].
@@ -307,6 +386,12 @@ Proof.
     + apply N.mod_lt; lia.
     + apply N.mod_lt; lia.
     + apply N.mod_lt; lia.
+  - pose proof (valid_rune_lt v H) as Hv.
+    assert (Hhi : v / 65536 < 65536) by (apply N.div_lt_upper_bound; lia).
+    assert (Hlo : v mod 65536 < 65536) by (apply N.mod_lt; lia).
+    unfold hex4_text. cbn [append].
+    apply scan_u8; try reflexivity; apply digit_val_hexdigit;
+      try (apply N.mod_lt; lia); apply N.div_lt_upper_bound; lia.
 Qed.
 
 Lemma scan_quoted : forall els rest, forallb qel_ok els = true ->
